@@ -49,9 +49,10 @@ func (d *dialer) Dial() (transport.Pipe, error) {
 	d.lock.Lock()
 	config := d.config
 	maxRecvSize := d.maxRecvSize
+	nd := *d.d
 	d.lock.Unlock()
 
-	conn, err := tls.DialWithDialer(d.d, "tcp", d.addr, config)
+	conn, err := tls.DialWithDialer(&nd, "tcp", d.addr, config)
 	if err != nil {
 		return nil, err
 	}
@@ -63,6 +64,8 @@ func (d *dialer) Dial() (transport.Pipe, error) {
 }
 
 func (d *dialer) SetOption(n string, v interface{}) error {
+	d.lock.Lock()
+	defer d.lock.Unlock()
 	switch n {
 	case mangos.OptionMaxRecvSize:
 		if b, ok := v.(int); ok {
@@ -164,13 +167,14 @@ func (l *listener) Listen() error {
 		l.lock.Unlock()
 		return err
 	}
-	l.l = tls.NewListener(inner, config)
-	l.bound = l.l.Addr()
+	ln := tls.NewListener(inner, config)
+	l.l = ln
+	l.bound = ln.Addr()
 	l.lock.Unlock()
 
 	go func() {
 		for {
-			conn, err := l.l.Accept()
+			conn, err := ln.Accept()
 			if err != nil {
 				select {
 				case <-l.closeQ:
@@ -196,14 +200,20 @@ func (l *listener) Listen() error {
 }
 
 func (l *listener) Address() string {
-	if b := l.bound; b != nil {
+	l.lock.Lock()
+	b := l.bound
+	l.lock.Unlock()
+	if b != nil {
 		return "tls+tcp://" + b.String()
 	}
 	return "tls+tcp://" + l.addr
 }
 
 func (l *listener) Accept() (transport.Pipe, error) {
-	if l.l == nil {
+	l.lock.Lock()
+	ln := l.l
+	l.lock.Unlock()
+	if ln == nil {
 		return nil, mangos.ErrClosed
 	}
 	return l.hs.Wait()
@@ -211,8 +221,11 @@ func (l *listener) Accept() (transport.Pipe, error) {
 
 func (l *listener) Close() error {
 	l.once.Do(func() {
-		if l.l != nil {
-			_ = l.l.Close()
+		l.lock.Lock()
+		ln := l.l
+		l.lock.Unlock()
+		if ln != nil {
+			_ = ln.Close()
 		}
 		l.hs.Close()
 		close(l.closeQ)
